@@ -557,12 +557,24 @@ Proof.
   rewrite <- (str_roundtrip r s Wr Ws). reflexivity.
 Qed.
 
-(* FirstAddressFromStreamStoreKey on <len><addr><anything>, len <= 254 *)
+(* FirstAddressFromStreamStoreKey (fixed code) on <len><addr><anything> *)
 Lemma first_address_shape ls s t :
-  ls < 255 -> length s = N.to_nat ls ->
+  length s = N.to_nat ls ->
   first_address_from_stream_store_key (ls :: s ++ t) = Some s.
 Proof.
-  intros B L. unfold first_address_from_stream_store_key.
+  intros L. unfold first_address_from_stream_store_key. rewrite <- L.
+  cbn [Nat.add Nat.leb length Nat.sub skipn].
+  assert ((length s <=? length (s ++ t))%nat = true) as ->
+    by (apply Nat.leb_le; rewrite app_length; lia).
+  rewrite Nat.sub_0_r, firstn_length_app. reflexivity.
+Qed.
+
+(* the helper before the fix: fine for len <= 254 ... *)
+Lemma first_address_legacy_shape ls s t :
+  ls < 255 -> length s = N.to_nat ls ->
+  first_address_from_stream_store_key_legacy (ls :: s ++ t) = Some s.
+Proof.
+  intros B L. unfold first_address_from_stream_store_key_legacy.
   rewrite (N.mod_small (1 + ls) 256) by lia.
   replace (N.to_nat (1 + ls)) with (S (length s)) by lia.
   cbn [Nat.leb length Nat.sub skipn].
@@ -571,9 +583,9 @@ Proof.
   cbn [andb]. rewrite Nat.sub_0_r, firstn_length_app. reflexivity.
 Qed.
 
-(* ... and on <255><anything>: uint8 overflow of 1+addrLen, Go panics *)
-Lemma first_address_255 t :
-  first_address_from_stream_store_key (255 :: t) = None.
+(* ... and on <255><anything>: uint8 overflow of 1+addrLen, Go panicked *)
+Lemma first_address_legacy_255 t :
+  first_address_from_stream_store_key_legacy (255 :: t) = None.
 Proof. reflexivity. Qed.
 
 Lemma strip_receiver_prefix r s :
@@ -585,45 +597,57 @@ Proof.
   apply skipn_length_app.
 Qed.
 
-(* AllStreamsForReceiver query: correct for senders of 1..254 bytes *)
+(* AllStreamsForReceiver query (fixed code): correct for every legal sender,
+   1..255 bytes *)
 Theorem str_receiver_query_sender r s :
-  wf_addr r = true -> wf_addr s = true -> (length s <= 254)%nat ->
+  wf_addr r = true -> wf_addr s = true ->
   receiver_query_sender r (str_encode (SkStream r s)) = Some s.
 Proof.
-  intros Wr Ws L. unfold receiver_query_sender.
+  intros Wr Ws. unfold receiver_query_sender.
   rewrite strip_receiver_prefix, (length_prefix_wf s Ws).
   rewrite <- (app_nil_r s) at 2.
-  apply first_address_shape; [lia | rewrite Nat2N.id; reflexivity].
+  apply first_address_shape. rewrite Nat2N.id. reflexivity.
 Qed.
 
-(* ... and panics for every legal 255-byte sender *)
-Theorem str_receiver_query_sender_255 r s :
-  wf_addr s = true -> length s = 255%nat ->
-  receiver_query_sender r (str_encode (SkStream r s)) = None.
+(* Before the fix: correct for senders of 1..254 bytes ... *)
+Theorem legacy_receiver_query_sender r s :
+  wf_addr r = true -> wf_addr s = true -> (length s <= 254)%nat ->
+  receiver_query_sender_legacy r (str_encode (SkStream r s)) = Some s.
 Proof.
-  intros Ws L. unfold receiver_query_sender.
-  rewrite strip_receiver_prefix, (length_prefix_wf s Ws), L.
-  apply first_address_255.
+  intros Wr Ws L. unfold receiver_query_sender_legacy.
+  rewrite strip_receiver_prefix, (length_prefix_wf s Ws).
+  rewrite <- (app_nil_r s) at 2.
+  apply first_address_legacy_shape; [lia | rewrite Nat2N.id; reflexivity].
 Qed.
 
-(* REFUTED: "a stream listed by the chain is reported with exactly the sender
-   it was created with" fails for AllStreamsForReceiver when the sender is a
-   (legal) 255-byte address: FirstAddressFromStreamStoreKey panics. *)
-Theorem str_receiver_query_sender_refuted :
+(* ... and a panic for every legal 255-byte sender *)
+Theorem legacy_receiver_query_sender_255 r s :
+  wf_addr s = true -> length s = 255%nat ->
+  receiver_query_sender_legacy r (str_encode (SkStream r s)) = None.
+Proof.
+  intros Ws L. unfold receiver_query_sender_legacy.
+  rewrite strip_receiver_prefix, (length_prefix_wf s Ws), L.
+  apply first_address_legacy_255.
+Qed.
+
+(* Before the fix, "a stream listed by the chain is reported with exactly the
+   sender it was created with" failed for AllStreamsForReceiver when the sender
+   is a (legal) 255-byte address; the fixed helper reports it correctly. *)
+Theorem legacy_receiver_query_sender_refuted :
   exists r s, wf_addr r = true /\ wf_addr s = true /\
     addresses_from_stream_key (str_encode (SkStream r s)) = Some (r, s) /\
-    receiver_query_sender r (str_encode (SkStream r s)) = None.
+    receiver_query_sender r (str_encode (SkStream r s)) = Some s /\
+    receiver_query_sender_legacy r (str_encode (SkStream r s)) = None.
 Proof.
   exists [0x01], (repeat 0xAB 255).
-  repeat split; try reflexivity.
-  - apply str_roundtrip; reflexivity.
+  repeat split; reflexivity.
 Qed.
 
 (* Why wf_addr demands a non-empty address: LengthPrefix returns the empty
    slice unchanged (no length byte), so empty addresses would alias. *)
 Example str_empty_address_collision :
-  str_encode (SkStream [] [0x01; 0x07]) = str_encode (SkStream [0x07] []) /\
-  SkStream [] [0x01; 0x07] <> SkStream [0x07] [].
+  str_encode (SkStream [] [0x07]) = str_encode (SkStream [0x07] []) /\
+  SkStream [] [0x07] <> SkStream [0x07] [].
 Proof. split; [reflexivity | discriminate]. Qed.
 
 (* ================================================================== *)
